@@ -267,15 +267,20 @@ structure Statement : Prop where
     (unboundKicks fret (bins.map fun b => (l * b.1, l * b.2))).1 =
       (unboundKicks fret bins).1.map (fun b => (l * b.1, l * b.2)) ∧
     (unboundKicks fret (bins.map fun b => (l * b.1, l * b.2))).2 = l * (unboundKicks fret bins).2
+  /-- with a homogeneous right-hand side, the scaled copy of an exact solution is again an exact solution (started from the scaled
+      initial state, which `initial` provides) -/
+  solution : ∀ {n : ℕ} (y : Fin n → ℝ → ℝ) (F : ℝ → (Fin n → ℝ) → Fin n → ℝ) (l t : ℝ),
+    (∀ i, HasDerivAt (y i) (F t (fun j => y j t) i) t) → (∀ v : Fin n → ℝ, ∀ i, F t (fun j => l * v j) i = l * F t v i) →
+    ∀ i, HasDerivAt (fun s => l * y i s) (F t (fun j => l * y j t) i) t
   initial : ∀ (ext : Nat) (segs : List (Seg ℝ)) (l n lo hi : ℝ) (i : Nat),
     firstTrue (binMasks ext segs lo hi) = some i →
     ∃ N M a, binnedEval1 ext segs n lo hi = .ok (N, M, a) ∧
       binnedEval1 ext segs (l * n) lo hi = .ok (N.map (l * ·), M.map (l * ·), a)
 
-/-- **C18 (partial)**: degree-one homogeneity of every building block. That a *solution* scales follows for exact
-    solutions of the ODE; dopri5's step control is scale-aware only through atol (measured by the sweep). -/
+/-- **C18 (partial)**: degree-one homogeneity of every building block. A scaled exact solution is again an exact solution (`solution`); dopri5's step control is scale-aware only through atol (measured by the sweep). -/
 theorem C18_partial : Statement where
   sev := sevDNdm_homogeneous
+  solution := fun y F l t h1 h2 => Conserve.scaled_solution y F l t h1 h2
   esc_pre := fun normM l rate hl stars rems => escPre_homogeneous normM l rate hl stars rems
   esc_post := fun normM l rate md hl stars rems => escPost_homogeneous normM l rate md hl stars rems
   eject := dynEjectLoop_homogeneous
